@@ -657,3 +657,122 @@ func ruleCASTKEY(c *Ctx) {
 		c.Lost(rule, key, "no `castActions[key] = len(parser.Actions)` registration found")
 	}
 }
+
+// CONSTAGREE(reserved-tokens): token 0 (EOI) and token 1 (InvalidToken) are reserved; the first
+// two entries of RuleToken are their default actions. canInlineRules skips those entries
+// (RuleToken[2:]) and refuses to inline when another rule produces a reserved token (e < 2):
+// in inlined tables "token == InvalidToken" means "nothing matched", which would throw away the
+// successful match of an explicit invalid_token rule after a backtracking checkpoint. The two
+// constants denote the same count and must agree.
+func ruleRESERVEDTOKENS(c *Ctx) {
+	const rule = "CONSTAGREE(reserved-tokens)"
+	key := "compiler.lexerCompiler.canInlineRules:reserved"
+	f := c.SSAFunc("compiler", "(*lexerCompiler).canInlineRules")
+	if f == nil {
+		c.Lost(rule, key, "function not found")
+		return
+	}
+	skip, floor := int64(-1), int64(-1)
+	var pos token.Pos
+	for _, b := range f.Blocks {
+		for _, ins := range b.Instrs {
+			switch x := ins.(type) {
+			case *ssa.Slice:
+				if strings.HasSuffix(vpath(x.X), ".RuleToken") {
+					if k, ok := x.Low.(*ssa.Const); ok && k.Value != nil {
+						skip = k.Int64()
+					}
+				}
+			case *ssa.If:
+				l, op, r, ok := cmpNormV(x.Cond, true)
+				if !ok {
+					continue
+				}
+				if k, isK := r.(*ssa.Const); isK && k.Value != nil && op == "<" && strings.Contains(vpath(l), "RuleToken") {
+					floor, pos = k.Int64(), x.Cond.Pos()
+				}
+			}
+		}
+	}
+	switch {
+	case skip < 0 || floor < 0:
+		c.Lost(rule, key, "RuleToken[K:] / e < K not found (skip=%d floor=%d)", skip, floor)
+	case skip == floor:
+		c.Ok(rule, key, pos, "%d reserved entries are skipped and a rule producing a token below %d prevents inlining", skip, floor)
+	default:
+		c.Bad(rule, key, pos, "%d reserved entries are skipped but only tokens below %d prevent inlining: an explicit rule for a reserved token (invalid_token) is inlined, and its match is discarded as \"nothing matched\" after a checkpoint", skip, floor)
+	}
+}
+
+// ONCE(go-decl): goParserAction rewrites $-references of a semantic action in a loop and emits
+// a typed local (`nnK, _ := stack[...].value.(T)`) the first time a symbol is referenced. A Go
+// short variable declaration may appear once per scope: every emission of text containing ":="
+// inside a loop must be governed by a failed lookup in a seen-set and record its key in the same
+// block, or an action that mentions the same symbol twice generates `no new variables on left
+// side of :=` and the parser does not build.
+func ruleDECLONCE(c *Ctx) {
+	const rule = "ONCE(go-decl)"
+	n := 0
+	for _, f := range c.SrcFuncs("gen") {
+		loops := naturalLoops(f)
+		ord := map[string]int{}
+		for _, b := range f.Blocks {
+			for _, ins := range b.Instrs {
+				call, ok := ins.(*ssa.Call)
+				if !ok {
+					continue
+				}
+				g := call.Call.StaticCallee()
+				if g == nil || g.Pkg == nil || g.Pkg.Pkg.Path() != "fmt" || g.Name() != "Fprintf" || len(call.Call.Args) < 2 {
+					continue
+				}
+				k, ok := call.Call.Args[1].(*ssa.Const)
+				if !ok || k.Value == nil || !strings.Contains(k.Value.ExactString(), ":=") {
+					continue
+				}
+				if innermostLoop(loops, b) == nil {
+					continue
+				}
+				n++
+				key := ordKey(ord, ssaFuncKey(f)+":decl")
+				var set ssa.Value
+				var setKey ssa.Value
+				for _, gc := range flattenConds(governing(b)) {
+					if gc.Pol {
+						continue
+					}
+					v := gc.V
+					if ex, ok := v.(*ssa.Extract); ok {
+						v = ex.Tuple
+					}
+					if lk, ok := v.(*ssa.Lookup); ok {
+						if mt, ok := lk.X.Type().Underlying().(*types.Map); ok {
+							if bt, ok := mt.Elem().Underlying().(*types.Basic); ok && bt.Kind() == types.Bool {
+								set, setKey = lk.X, lk.Index
+							}
+						}
+					}
+				}
+				recorded := false
+				if set != nil {
+					for _, in2 := range b.Instrs {
+						if mu, ok := in2.(*ssa.MapUpdate); ok && mu.Map == set && (mu.Key == setKey || vpath(mu.Key) == vpath(setKey)) {
+							recorded = true
+						}
+					}
+				}
+				switch {
+				case set == nil:
+					c.Bad(rule, key, call.Pos(), "a Go short variable declaration (%s) is emitted inside the reference loop without a seen-set guard: a second reference to the same symbol declares the variable again and the generated parser does not build", k.Value.ExactString())
+				case !recorded:
+					c.Bad(rule, key, call.Pos(), "the declaration is guarded by a seen-set but its key is not recorded: the next reference emits it again")
+				default:
+					c.Ok(rule, key, call.Pos(), "the declaration is emitted once per key (guarded by !seen[k], which is then set)")
+				}
+			}
+		}
+	}
+	if n < 2 {
+		c.add(rule, "count:", token.NoPos, CountDropped, true, "only %d in-loop emissions of ':=' found in package gen (2 in goParserAction confirmed by hand)", n)
+	}
+}
